@@ -218,8 +218,9 @@ def independent_oracle(o, parsed, scale, dscale):
     if sorted(c[0] for c in circles) != sorted(n_["ID"] for n_ in o["Nodes"]):
         fails.append("node circles %s, nodes %s" % (sorted(c[0] for c in circles), sorted(n_["ID"] for n_ in o["Nodes"])))
     known = {(True, True, True): 1, (True, True, False): 2, (False, True, False): 3}
-    want = sorted((known[(n_["Dx"], n_["Dy"], n_["Rz"])], C.ffloat(n_["X"]) * u, C.ffloat(n_["Y"]) * u) for n_ in o["Nodes"]
-                  if (n_["Dx"], n_["Dy"], n_["Rz"]) in known)
+    # (paired in the order of the drawn integers: two supports may share a truncated coordinate)
+    want = sorted(((known[(n_["Dx"], n_["Dy"], n_["Rz"])], C.ffloat(n_["X"]) * u, C.ffloat(n_["Y"]) * u) for n_ in o["Nodes"]
+                   if (n_["Dx"], n_["Dy"], n_["Rz"]) in known), key=lambda a: (a[0], tr(a[1]), tr(a[2])))
     got = sorted(s for s in supports if s[0] != 0)
     if len(want) != len(got) or not all(a[0] == b[0] and same_int(b[1], a[1]) and same_int(b[2], a[2]) for a, b in zip(want, got)):
         want = [(a[0], float(a[1]), float(a[2])) for a in want]
